@@ -43,7 +43,8 @@ class AggActiveSet:
 
         if self.upper_amt < 1:
             n_upper_amt = int(x.size * (1 - self.upper_amt))
-            sel[i_sort[-n_upper_amt:]] = False
+            if n_upper_amt > 0:
+                sel[i_sort[-n_upper_amt:]] = False
 
         return sel
 
